@@ -129,6 +129,7 @@ class Sim:
         self.lossy = []          # (fn, block, callee): unmodelled calls that may have swallowed the forced value
         self.records = []        # (what, type, slot0, slot1, function, block): operations observed on symbolic operands
         self.visited = set()     # (function, block) of every block some explored path enters
+        self.visited_fired = set()   # ... entered after the site fired
         self.exit_codes = []     # (fired, value) for every process::exit reached
         self.states = 0
         self.tainted_by = tainted_by   # optional callable (fn, block, term) -> bool: does this call see the site's result?
@@ -439,6 +440,7 @@ class Sim:
         self.exit_codes += sub.exit_codes
         self.lossy += sub.lossy
         self.visited |= sub.visited
+        self.visited_fired |= sub.visited_fired
         self.records += sub.records
 
     def _carries_site(self, vals):
@@ -530,6 +532,8 @@ class Sim:
             if blk["cleanup"]:
                 continue
             self.visited.add((fn.name, b))
+            if fd:
+                self.visited_fired.add((fn.name, b))
             fr = Frame(fr.env)
             for st in blk["stmts"]:
                 if st[0] != "assign":
